@@ -626,7 +626,7 @@ impl Trace {
                 true
             }
             Err(st) => {
-                self.emit(format!("{{\"ev\":\"panic\",\"call\":{}}}", json_str(&st)));
+                self.emit(panic_line(&st));
                 false
             }
         }
@@ -650,7 +650,7 @@ impl Trace {
                 true
             }
             Err(st) => {
-                self.emit(format!("{{\"ev\":\"panic\",\"call\":{}}}", json_str(&st)));
+                self.emit(panic_line(&st));
                 false
             }
         }
@@ -675,19 +675,39 @@ impl Trace {
                 true
             }
             Err(st) => {
-                self.emit(format!("{{\"ev\":\"panic\",\"call\":{}}}", json_str(&st)));
+                self.emit(panic_line(&st));
                 false
             }
         }
     }
 
     pub fn panic_event(&mut self, what: &str) {
-        self.emit(format!("{{\"ev\":\"panic\",\"call\":{}}}", json_str(what)));
+        self.emit(panic_line(what));
     }
 
     pub fn flush(&mut self) {
         self.out.flush().unwrap();
     }
+}
+
+/// A panic of the code under test is data.  Which property it violates depends on the call that
+/// panicked (the stage name is the prefix of `what`): parsing -> C15; from-scratch hashing, equality
+/// and std hashing of states -> C08; everything a driver does on a reachable state (lists, result,
+/// queries, hash, printing, preview, earlier boards, applying an action) -> C19.
+pub fn panic_line(what: &str) -> String {
+    let props = if what.starts_with("from_str") || what.starts_with("GameState::from_str") {
+        "[\"C15\"]"
+    } else if what.starts_with("Zobrist::from_piece_board")
+        || what.starts_with("alt_state")
+        || what.starts_with("eq:")
+        || what.starts_with("std_hash")
+        || what.starts_with("c17")
+    {
+        "[\"C08\",\"C17\"]"
+    } else {
+        "[\"C19\"]"
+    };
+    format!("{{\"ev\":\"panic\",\"call\":{},\"props\":{}}}", json_str(what), props)
 }
 
 /// digest of an observation (all projected fields and query results as one string)
